@@ -46,6 +46,9 @@ func mkInput(t, it int) []byte {
 	nn := (t + 2*it) % 4
 	for k := 0; k < nn; k++ {
 		inner := vi(1, uint64(500000*(t+1)+1000*it+k))
+		if k == 1 {
+			inner = nil // a present but EMPTY nested message (lazyproto hands out a special empty result for it)
+		}
 		if k%2 == 0 {
 			inner = append(inner, ln(2, vi(1, uint64(7000000*(t+1)+it)))...)
 		}
